@@ -1,5 +1,6 @@
 use crate::command::types::CompareOp;
 use crate::engine::core::CandidateZone;
+use crate::engine::core::time::temporal_calendar_index::TemporalCalendarIndex;
 use crate::engine::core::time::temporal_traits::FieldIndex;
 use crate::engine::core::zone::selector::pruner::PruneArgs;
 use crate::engine::core::zone::zone_artifacts::ZoneArtifacts;
@@ -24,19 +25,23 @@ impl<'a> TemporalPruner<'a> {
             None => return None,
         };
         let is_timestamp = column == "timestamp";
-        let ts = match value {
-            ScalarValue::Int64(i) => (*i).max(0) as u64,
-            ScalarValue::Timestamp(t) => (*t).max(0) as u64,
+        // `raw` is the literal as epoch seconds; `ts` is the same value brought into the range
+        // the calendar can address. The calendar is only a coarse (day bucket) pre-selection,
+        // the exact comparison below uses `raw` against the zone's i64 bounds.
+        let raw: i64 = match value {
+            ScalarValue::Int64(i) => *i,
+            ScalarValue::Timestamp(t) => *t,
             ScalarValue::Utf8(s) => {
                 if let Some(parsed) = TimeParser::parse_str_to_epoch_seconds(s, TimeKind::DateTime)
                 {
-                    parsed.max(0) as u64
+                    parsed
                 } else {
-                    s.parse::<u64>().ok().unwrap_or(0)
+                    s.parse::<i64>().ok().unwrap_or(0)
                 }
             }
             _ => 0,
         };
+        let ts = TemporalCalendarIndex::clamp_ts(raw);
 
         match op {
             CompareOp::Eq => {
@@ -66,7 +71,7 @@ impl<'a> TemporalPruner<'a> {
                             .load_field_temporal_index(segment_id, uid, column, zid)
                     };
                     if let Ok(zti) = zti_result {
-                        if zti.contains_ts(ts as i64) {
+                        if zti.contains_ts(raw) {
                             out.push(CandidateZone::new(zid, segment_id.to_string()));
                         }
                     }
@@ -115,10 +120,10 @@ impl<'a> TemporalPruner<'a> {
                     };
                     if let Ok(zti) = zti_result {
                         let overlaps = match op {
-                            CompareOp::Gt => zti.max_ts > ts as i64,
-                            CompareOp::Gte => zti.max_ts >= ts as i64,
-                            CompareOp::Lt => zti.min_ts < ts as i64,
-                            CompareOp::Lte => zti.min_ts <= ts as i64,
+                            CompareOp::Gt => zti.max_ts > raw,
+                            CompareOp::Gte => zti.max_ts >= raw,
+                            CompareOp::Lt => zti.min_ts < raw,
+                            CompareOp::Lte => zti.min_ts <= raw,
                             _ => false,
                         };
                         if overlaps {
